@@ -9,7 +9,7 @@ use arrow_array::types::{Int16Type, Int32Type, Int64Type};
 use arrow_array::*;
 use arrow_buffer::{Buffer, NullBuffer, OffsetBuffer, ScalarBuffer};
 use arrow_schema::DataType;
-use arrow_string::concat_elements::{concat_elements_dyn, concat_elements_string_view_array, concat_elements_utf8};
+use arrow_string::concat_elements::{concat_elements_dyn, concat_elements_string_view_array, concat_elements_utf8, concat_elements_utf8_many};
 use arrow_string::length::{bit_length, length};
 use arrow_string::like::{contains, ends_with, ilike, like, nilike, nlike, starts_with};
 use arrow_string::regexp::{regexp_is_match, regexp_is_match_scalar};
@@ -277,6 +277,9 @@ pub fn run(op: &str, a: &Args) -> Option<Args> {
             push_strings(&mut out, concat_elements_dyn(l.as_ref(), r.as_ref()));
             let (l, r) = (build(2, &ls, &lv, false), build(2, &rs, &rv, false));
             push_strings(&mut out, concat_elements_string_view_array(l.as_string_view(), r.as_string_view()).map(|x| Arc::new(x) as ArrayRef));
+            // left ++ right ++ left through concat_elements_utf8_many (LargeUtf8)
+            let (l, r) = (build(1, &ls, &lv, false), build(1, &rs, &rv, false));
+            push_strings(&mut out, concat_elements_utf8_many(&[l.as_string::<i64>(), r.as_string::<i64>(), l.as_string::<i64>()]).map(|x| Arc::new(x) as ArrayRef));
             out
         }
         "c20.regexp" => {
@@ -294,13 +297,15 @@ pub fn run(op: &str, a: &Args) -> Option<Args> {
             let rarr = build(layout, &rtexts, &vec![true; n], false);
             let flags: Vec<Vec<u8>> = vec![b"s".to_vec(); n];
             let farr = build(layout, &flags, &vec![true; n], false);
-            let r = match (mode, layout) {
-                (0, 0) => regexp_is_match_scalar(arr.as_string::<i32>(), s(&ts[0]), Some("s")),
-                (0, 1) => regexp_is_match_scalar(arr.as_string::<i64>(), s(&ts[0]), Some("s")),
-                (0, _) => regexp_is_match_scalar(arr.as_string_view(), s(&ts[0]), Some("s")),
-                (_, 0) => regexp_is_match(arr.as_string::<i32>(), rarr.as_string::<i32>(), Some(farr.as_string::<i32>())),
-                (_, 1) => regexp_is_match(arr.as_string::<i64>(), rarr.as_string::<i64>(), Some(farr.as_string::<i64>())),
-                (_, _) => regexp_is_match(arr.as_string_view(), rarr.as_string_view(), Some(farr.as_string_view())),
+            // modes 0/1: scalar / array with flag "s"; modes 2/3: scalar / array without flags
+            let flag = if mode < 2 { Some("s") } else { None };
+            let r = match (mode % 2, layout) {
+                (0, 0) => regexp_is_match_scalar(arr.as_string::<i32>(), s(&ts[0]), flag),
+                (0, 1) => regexp_is_match_scalar(arr.as_string::<i64>(), s(&ts[0]), flag),
+                (0, _) => regexp_is_match_scalar(arr.as_string_view(), s(&ts[0]), flag),
+                (_, 0) => regexp_is_match(arr.as_string::<i32>(), rarr.as_string::<i32>(), if mode < 2 { Some(farr.as_string::<i32>()) } else { None }),
+                (_, 1) => regexp_is_match(arr.as_string::<i64>(), rarr.as_string::<i64>(), if mode < 2 { Some(farr.as_string::<i64>()) } else { None }),
+                (_, _) => regexp_is_match(arr.as_string_view(), rarr.as_string_view(), if mode < 2 { Some(farr.as_string_view()) } else { None }),
             };
             vec![texts_ok, bool_codes(r)]
         }
@@ -343,13 +348,18 @@ fn instantiate(r: &mut Rng, pat: &str, alpha: &[&str]) -> Vec<u8> {
             c => o.push(c),
         }
     }
-    match r.below(6) {
-        0 => { o.push_str(r.pick(alpha)); }
-        1 => { let x = r.pick(alpha).to_string(); o.insert_str(0, &x); }
-        2 => { o.pop(); }
-        3 => { if !o.is_empty() { o.remove(0); } }
+    let mut cs: Vec<char> = o.chars().collect();
+    match r.below(9) {
+        0 => { cs.extend(r.pick(alpha).chars()); }
+        1 => { let x: Vec<char> = r.pick(alpha).chars().collect(); cs.splice(0..0, x); }
+        2 => { cs.pop(); }
+        3 => { if !cs.is_empty() { cs.remove(0); } }
+        4 => { if !cs.is_empty() { let i = r.below(cs.len()); cs[i] = r.pick(alpha).chars().next().unwrap(); } }   // replace inside
+        5 => { if !cs.is_empty() { let i = r.below(cs.len()); cs.remove(i); } }                                   // delete inside
+        6 => { let i = r.below(cs.len() + 1); cs.insert(i, r.pick(alpha).chars().next().unwrap()); }               // insert inside
         _ => {}
     }
+    let o: String = cs.into_iter().collect();
     o.into_bytes()
 }
 /// validity with ~1/den nulls; the bytes of a null row stay what they are (hidden bytes under the null)
@@ -384,7 +394,7 @@ fn gen_likes(tier: &str, r: &mut Rng, emit: &mut dyn FnMut(Case)) {
         emit(likes_case("c20.likes", 0, 0, &hays, &hv, std::slice::from_ref(p), &pv, format!("like scalar {} len{}", shape(p), p.len().min(6))));
     }
     // pattern arrays: runs of equal patterns (the one-entry predicate cache) over sampled haystacks
-    let per = if thorough { 40 } else { 10 };
+    let per = if thorough { 60 } else { 24 };
     let (mut hs, mut ps): (Vec<Vec<u8>>, Vec<Vec<u8>>) = (Vec::new(), Vec::new());
     let flush = |hs: &mut Vec<Vec<u8>>, ps: &mut Vec<Vec<u8>>, r: &mut Rng, emit: &mut dyn FnMut(Case), family: usize| {
         if hs.is_empty() { return; }
@@ -426,6 +436,29 @@ fn gen_likes(tier: &str, r: &mut Rng, emit: &mut dyn FnMut(Case)) {
         emit(likes_case("c20.likes", 2, 1, &hs, &hv, &ps, &pv, "sec array".to_string()));
     }
 
+    // ---- escapes and regex metacharacters: `\c`, unescaped c, next to wildcards, for every c of the alphabet and
+    //      every regex metacharacter; haystacks: every string of length <= 3 over {c, a, \}
+    let specials: Vec<char> = "\\.+*?()|[]{}^$#&-~%_ax\n".chars().chain(['é', 'ß', '😀', '\u{301}']).collect();
+    for fam in [0usize, 1] {
+        for &c in &specials {
+            if fam == 1 && !c.is_ascii() { continue; }
+            let hs: Vec<Vec<u8>> = all_strings(&[c, 'a', '\\'], 3).iter().map(|h| enc(h)).collect();
+            let forms: Vec<String> = vec![format!("\\{c}"), format!("{c}"), format!("a\\{c}"), format!("\\{c}a"), format!("%\\{c}"), format!("\\{c}%"),
+                format!("%\\{c}%"), format!("_\\{c}"), format!("\\{c}_"), format!("\\\\{c}"), format!("{c}%"), format!("%{c}"), format!("%{c}%"), format!("{c}_{c}"),
+                format!("{c}\\"), format!("a{c}a"), format!("%{c}_"), format!("{c}%{c}")];
+            for f in &forms {
+                let p = f.clone().into_bytes();
+                let hv = validity(r, hs.len(), 30);
+                emit(likes_case("c20.likes", fam, 0, &hs, &hv, std::slice::from_ref(&p), &[true], format!("esc fam{fam} scalar {}", shape(&p))));
+            }
+            // the same forms as a pattern array against sampled haystacks
+            let n = 4 * forms.len();
+            let ps: Vec<Vec<u8>> = (0..n).map(|i| forms[i / 4].clone().into_bytes()).collect();
+            let hs2: Vec<Vec<u8>> = (0..n).map(|_| r.pick(&hs).clone()).collect();
+            emit(likes_case("c20.likes", fam, 1, &hs2, &validity(r, n, 16), &ps, &validity(r, n, 16), format!("esc fam{fam} array")));
+        }
+    }
+
     // ---- ILIKE: every pattern over {%, _, \, a, A, é} x haystacks over {a, A, é, \n} (rows with é are masked)
     let ipats: Vec<Vec<u8>> = all_strings(&['%', '_', '\\', 'a', 'A', 'é'], if thorough { 4 } else { 3 }).iter().map(|p| enc(p)).collect();
     let ihays_ascii: Vec<Vec<u8>> = all_strings(&['a', 'A', 'b', '\n'], 4).iter().map(|h| enc(h)).collect();
@@ -444,7 +477,7 @@ fn gen_likes(tier: &str, r: &mut Rng, emit: &mut dyn FnMut(Case)) {
 
     // ---- sampled longer patterns / haystacks over the full alphabet (regex metacharacters, >12-byte strings)
     let ascii_alpha: Vec<&str> = FULL.iter().copied().filter(|x| x.is_ascii()).collect();
-    let nlong = if thorough { 6000 } else { 600 };
+    let nlong = if thorough { 8000 } else { 1200 };
     for i in 0..nlong {
         let family = if i % 3 == 2 { 1 } else { 0 };
         let alpha: &[&str] = if family == 1 && r.bool() { &ascii_alpha } else { &FULL };
@@ -589,18 +622,24 @@ fn gen_strings(tier: &str, r: &mut Rng, emit: &mut dyn FnMut(Case)) {
 
 fn gen_regexp(tier: &str, r: &mut Rng, emit: &mut dyn FnMut(Case)) {
     let alpha: Vec<&str> = FULL.to_vec();
-    for i in 0..(if tier == "thorough" { 3000 } else { 300 }) {
-        let mode = i % 2;
+    for i in 0..(if tier == "thorough" { 4000 } else { 400 }) {
+        let array = i % 2;
         let layout = (i / 2) % 3;
-        let k = if mode == 0 { 1 } else { 1 + r.below(3) };
-        let pats: Vec<String> = (0..k).map(|_| String::from_utf8(rand_string(r, &alpha, 7)).unwrap()).collect();
+        let k = if array == 0 { 1 } else { 1 + r.below(3) };
+        let pats: Vec<String> = (0..k).map(|_| match r.below(6) {
+            0 => "%".to_string(), 1 => "%%".to_string(),     // translate to "" : the empty-regex special case
+            _ => String::from_utf8(rand_string(r, &alpha, 7)).unwrap() }).collect();
         let n = 8 + r.below(24);
         let hs: Vec<Vec<u8>> = (0..n).map(|j| if j % 3 == 0 { rand_string(r, &alpha, 10) } else { instantiate(r, &pats[j % k], &alpha) }).collect();
         let valid = validity(r, n, 10);
+        let texts: Vec<String> = pats.iter().map(|p| like_to_regex_text(p)).collect();
+        // without the "s" flag '.' does not match a newline: only when no text contains a '.' or no haystack a newline
+        let noflag_ok = texts.iter().all(|t| !t.contains('.')) || hs.iter().all(|h| !h.contains(&b'\n'));
+        let mode = array + if noflag_ok && r.bool() { 2 } else { 0 };
         let mut args: Args = vec![vec![mode.into(), layout.into(), n.into(), k.into()], gbools(valid.iter().copied())];
         for h in &hs { args.push(gbytes(h)); }
         for p in &pats { args.push(gbytes(p.as_bytes())); }
-        for p in &pats { args.push(gbytes(like_to_regex_text(p).as_bytes())); }
+        for t in &texts { args.push(gbytes(t.as_bytes())); }
         emit(Case::new("c20.regexp", args, &["c20.regexp.spec"], format!("regexp m{mode} l{layout}")));
     }
 }
